@@ -192,23 +192,21 @@ def readUntil (e : UInt8) : List UInt8 → Option (List UInt8 × List UInt8)
       | none => none
 
 /-- Digits of a base-10 `int()` literal after the first digit: single underscores between digits are
-allowed (`1_0`), `1__0`, `1_` and `1_x` are not.  Returns the value and the unread rest. -/
-def scanDigits : Nat → List UInt8 → Option (Nat × List UInt8)
-  | acc, [] => some (acc, [])
-  | acc, c :: t =>
-    if isDigitB c then scanDigits (acc * 10 + digitVal c) t
-    else if c = 95 then
-      match t with
-      | d :: t' => if isDigitB d then scanDigits (acc * 10 + digitVal d) t' else none
-      | [] => none
-    else some (acc, c :: t)
+allowed (`1_0`), `1__0`, `1_` and `1_x` are not.  `us` = the previous byte was an underscore.
+Returns the value and the unread rest. -/
+def scanDigits : Bool → Nat → List UInt8 → Option (Nat × List UInt8)
+  | us, acc, [] => if us then none else some (acc, [])
+  | us, acc, c :: t =>
+    if isDigitB c then scanDigits false (acc * 10 + digitVal c) t
+    else if c = 95 then (if us then none else scanDigits true acc t)
+    else if us then none else some (acc, c :: t)
 
 /-- unsigned part of the literal: a digit first, then `scanDigits`, then only whitespace -/
 def pyIntNat : List UInt8 → Option Nat
   | [] => none
   | c :: t =>
     if isDigitB c then
-      match scanDigits (digitVal c) t with
+      match scanDigits false (digitVal c) t with
       | some (n, rest) => if rest.all isSpaceB then some n else none
       | none => none
     else none
